@@ -72,8 +72,7 @@ func c17ResetSpecs(p *Prog) []resetSpec {
 		}},
 		{Type: "offsetTrackingWriter", Reset: []string{"(*offsetTrackingWriter).Reset"}},
 		{Type: "dedupe", Reset: []string{"(*dedupe).reset"}, Exempt: map[string]string{
-			"dedupe.uniq": "scratch truncated by a deferred call in deduplicate (checked by C17.scratch)",
-			"dedupe.dupe": "scratch truncated by a deferred call in deduplicate (checked by C17.scratch)",
+			// the []Row scratch fields (whatever they are called) are added below
 		}},
 		{Type: "optionalColumnBuffer", Reset: []string{"(*optionalColumnBuffer).Reset"}, Exempt: map[string]string{
 			"optionalColumnBuffer.reordered": "a stale `true` only triggers the cyclic reorder over freshly written rows, whose row index is the identity: no swap happens",
@@ -134,7 +133,36 @@ func c17ResetSpecs(p *Prog) []resetSpec {
 			specs = append(specs, resetSpec{Type: nt.Obj().Name(), Reset: []string{"(*" + nt.Obj().Name() + ").Reset"}, Exempt: map[string]string{}})
 		}
 	}
+	// the []Row scratch fields of the dedupe helper, by type rather than by name
+	for i := range specs {
+		if specs[i].Type != "dedupe" {
+			continue
+		}
+		for _, f := range dedupeScratchFields(p) {
+			specs[i].Exempt["dedupe."+f.Name()] = "scratch truncated by a deferred call in deduplicate (checked by C17.scratch)"
+		}
+	}
 	return specs
+}
+
+// dedupeScratchFields: the fields of the dedupe helper that collect rows of the
+// batch being processed ([]Row).
+func dedupeScratchFields(p *Prog) []*types.Var {
+	var out []*types.Var
+	n := p.LookupType("dedupe")
+	if n == nil {
+		return nil
+	}
+	st, ok := n.Underlying().(*types.Struct)
+	if !ok {
+		return nil
+	}
+	for i := 0; i < st.NumFields(); i++ {
+		if isRowSlice(st.Field(i).Type()) {
+			out = append(out, st.Field(i))
+		}
+	}
+	return out
 }
 
 func runC17(c *Ctx) {
@@ -194,8 +222,9 @@ func runC17(c *Ctx) {
 	c.Min("C17.own", 8)
 
 	runScratchRule(c, "C17.scratch", "ConcurrentRowGroupWriter", "values")
-	runScratchRule(c, "C17.scratch", "dedupe", "uniq")
-	runScratchRule(c, "C17.scratch", "dedupe", "dupe")
+	for _, f := range dedupeScratchFields(p) {
+		runScratchRule(c, "C17.scratch", "dedupe", f.Name())
+	}
 	runScratchRule(c, "C17.scratch", "Buffer", "colbuf")
 	c.Min("C17.scratch", 3)
 
